@@ -59,7 +59,7 @@ func init() {
 		NotDecided: "multi-step requests being all-or-nothing; GC deleting blobs before saving the index; stray temp files; power-failure durability (outside the property).",
 	})
 	registerProperty(&Property{ID: "C10", DesignRef: "DESIGN.md §4 C10, §3.5",
-		Rules:      []string{"TS-SAVE", "FS-INIT", "FS-CLEANUP", "LK-COPY", "SH-WORKLIST#complete", "SH-SCAN-QUEUE", "SH-CONVERT-MARK#loader", "TS-HASHBYTES", "SH-SWEEP-GUARD#exact", "TS-LOADSTAMP", "TS-TOMBSTONE"},
+		Rules:      []string{"TS-SAVE", "FS-INIT", "FS-CLEANUP", "LK-COPY", "SH-WORKLIST#complete", "SH-SCAN-QUEUE", "SH-CONVERT-MARK#loader", "TS-HASHBYTES", "SH-SWEEP-GUARD#exact", "TS-LOADSTAMP", "TS-TOMBSTONE", "TB-RESERVED"},
 		Technique:  "filesystem-effect and path analysis on go/ssa",
 		Decided:    "every index mutation ends in a save whose result is returned; layout initialised (or known to exist) before the first write on every path; the empty-repository cleanup removes content before markers, stops at the first failure, knows every registered algorithm directory, reports success once the markers are gone and clears the exists flag on exactly that result; the initialiser repairs a layout file that fails the openers' content check; every index load runs the ingest whose child scan processes everything it queues.",
 		NotDecided: "equality of answers across restart / across stores (value-level); child-descriptor rebuild.",
@@ -92,7 +92,7 @@ func init() {
 		NotDecided: "‘while still serving its content’ for legacy layouts whose conversion needs a write (value-level).",
 	})
 	registerProperty(&Property{ID: "C15", DesignRef: "DESIGN.md §4 C15, §3.6, §3.4",
-		Rules:      []string{"TB-ERRCODE", "TB-ERRPAIR", "TB-ERRWRAP", "SH-SIBLING-STORE#sentinels", "PV-BOUNDS", "PV-ROUTE", "PV-REPO", "TB-NILCONF", "TB-GRAMMAR", "TS-POOL", "LK-HOLD", "PV-PATH#digest", "TS-CONTENT-LENGTH"},
+		Rules:      []string{"TB-ERRCODE", "TB-ERRPAIR", "TB-ERRWRAP", "SH-SIBLING-STORE#sentinels", "PV-BOUNDS", "PV-ROUTE", "PV-REPO", "TB-NILCONF", "TB-GRAMMAR", "TS-POOL", "LK-HOLD", "PV-PATH#digest", "TS-CONTENT-LENGTH", "PV-NILFIELD"},
 		Technique:  "table agreement on typed constants; condition→code classification on go/ssa; difference-bound range proof",
 		Decided:    "the error constructors equal the OCI code table; every error document follows a constant 4xx and the same condition maps to the same (registered) code at all sibling sites; request-derived integers are proven in range, constant indexes into decoded or cached lists are covered by a length test at the read or at every producer; only grammar-checked repository names are routed; dereferenced settings cannot be nil; digest parts reach a file name only after Validate (the accessors of an unvalidated digest panic on a value without a colon); a Content-Length computed from a byte slice announces the slice that is written.",
 		NotDecided: "panic freedom in general (index arithmetic not derived from request integers); 5xx-vs-4xx classification of store errors.",
